@@ -71,28 +71,34 @@ RTNames == DOMAIN RTItems
 (* ---------------- cases ---------------- *)
 Case(fam, x, h, lib) == [fam |-> fam, x |-> x, h |-> h, lib |-> lib]
 Doc(kids) == G!Doc(kids)
-Answers(x, h) == Applied(x, h) # Applied(x, "none")
+\* the node kinds a handler answers on
+HandlerKinds == [none |-> {}, self |-> {}, tmark |-> {"TEMPLATE"}, linktext |-> {"LINK"}, htmlbold |-> {"BOLD", "ITALIC"},
+                 droparg |-> {"TEMPLATE_ARG"}]
+Answers(x, h) == HandlerKinds[h] \cap U!KindsInKids(AsList(x)) # {}
 HasTemplate(x) == "TEMPLATE" \in U!KindsInKids(AsList(x))
-\* a value with the handlers that answer on it and, when it holds a template call, every library
-VariantsH(fam, x) ==
+\* a value with the handlers of hs that answer on it (and "self" when it is in hs) ...
+VariantsH(fam, x, hs) ==
   {Case(fam, x, "none", "show")}
-  \cup {Case(fam \o "+h", x, h, "show") : h \in {hh \in Handlers \ {"none"} : hh = "self" \/ Answers(x, hh)}}
+  \cup {Case(fam \o "+h", x, h, "show") : h \in {hh \in hs \ {"none"} : hh = "self" \/ Answers(x, hh)}}
+\* ... and, when it holds a template call, with every library
 Variants(fam, x) ==
-  VariantsH(fam, x)
+  VariantsH(fam, x, Handlers)
   \cup (IF HasTemplate(x) THEN {Case(fam \o "+lib", x, "none", l) : l \in LibNames \ {"show"}} ELSE {})
 Plain(fam, x) == {Case(fam, x, "none", "show")}
 
 Inl1 == G!Inl(1, {})
 TCall == G!Wrap("T", <<S(<<"a1">>)>>)
+Rich == G!Wrap("B", G!Wrap("L", TCall))            \* '''[[l|{{t|a1|z1}}]]''': every handler but droparg answers
 Star == G!Wrap("T", <<S(<<"*", "SP", "a1">>)>>)
 CasesQ(z) ==
   UNION {Variants("inline", Doc(G!Blk("para", x))) : x \in Inl1}
-  \cup UNION {VariantsH("block", Doc(G!Blk(w, x))) : w \in G!BlockW, x \in {TCall, G!Wrap("B", G!Wrap("L", <<S(<<"a1">>)>>))}}
-  \cup UNION {{Case("block+lib", Doc(G!Blk(w, TCall)), "none", l) : l \in {"star", "none"}} : w \in G!BlockW}
+  \cup UNION {VariantsH("block", Doc(G!Blk(w, Rich)), {"linktext"}) : w \in G!BlockW}
+  \cup UNION {{Case("block+lib", Doc(G!Blk(w, TCall)), "none", l) : l \in {"star"}} : w \in G!BlockW}
   \cup UNION {Plain("outer", Doc(G!Outer(o, G!Blk("ul", TCall)))) : o \in G!OuterW}
-  \cup UNION {Plain("text", Doc(G!Blk(w, Around(RTItems[n])))) : n \in RTNames, w \in {"para", "ul"}}
+  \cup UNION {Plain("text", Doc(G!Blk("para", Around(RTItems[n])))) : n \in RTNames}
+  \cup UNION {Plain("text", Doc(G!Blk("ul", Around(RTItems[n])))) : n \in {"refnl", "brnl", "hr", "h2attr", "cat", "nested", "ext", "less"}}
   \cup UNION {Plain("text-in-call", Doc(G!Blk("para", G!Wrap(w, RTItems[n])))) : n \in {"ref", "br", "h2", "cat", "piped", "nested"}, w \in {"T", "P", "A", "B"}}
-  \cup UNION {VariantsH("empty", Doc(G!Blk("para", <<e>>))) : e \in {c \in G!EmptyCalls : Len(c.largs) <= 3}}
+  \cup UNION {VariantsH("empty", Doc(G!Blk("para", <<e>>)), {"tmark", "droparg"}) : e \in {c \in G!EmptyCalls : Len(c.largs) <= 3}}
   \cup UNION {Plain("lib", Doc(G!Blk("para", G!J3(Star, <<S(<<"SP">>)>>, G!Wrap("N", <<S(<<"SP", "v1", "NL">>)>>))))) }
   \cup {Case("direct-list", [list |-> G!Blk("ul", TCall)], h, "show") : h \in {"none", "tmark"}}
   \cup {Case("direct-string", S(<<"x1", "SP", "[", "[", "y1", "]", "]">>), "none", "show")}
@@ -101,7 +107,7 @@ Inl2(z) == G!Inl(2, {})
 CasesT(z) ==
   CasesQ(z)
   \cup UNION {Variants("inline2", Doc(G!Blk(w, x))) : w \in {"para", "cell", "ddef"}, x \in Inl2(z)}
-  \cup UNION {Plain("block", Doc(G!Blk(w, x))) : w \in G!BlockW, x \in Inl1}
+  \cup UNION {VariantsH("block", Doc(G!Blk(w, x)), Handlers) : w \in G!BlockW, x \in Inl1}
   \cup UNION {Plain("outer", Doc(G!Outer(ow[1], G!Blk(ow[2], TCall)))) : ow \in {v \in G!OuterW \X G!BlockW : G!InnerOK(v[1], v[2])}}
   \cup UNION {Plain("text", Doc(G!Blk(w, Around(RTItems[n])))) : n \in RTNames, w \in G!BlockW}
   \cup UNION {Plain("text2", Doc(G!Blk("para", G!J3(Around(RTItems[n]), <<S(<<"SP">>)>>, RTItems[m])))) : n \in RTNames, m \in RTNames}
@@ -111,7 +117,9 @@ Cases(z) == IF Tier = "Q" THEN CasesQ(z) ELSE CasesT(z)
 
 (* ---------------- generator ---------------- *)
 VARIABLES case, done
-Size(c) == Len(U!UnparseList(AsList(c.x), {}))
+\* (any cheap function of the case will do to share the cases out)
+Size(c) == NCallsL(AsList(c.x)) + Cardinality(U!KindsInKids(AsList(c.x))) + Len(c.fam)
+           + (CHOOSE k \in 1..6 : <<"none", "self", "tmark", "linktext", "htmlbold", "droparg">>[k] = c.h)
 Init == case \in {c \in Cases(0) : Size(c) % Parts = Part} /\ done = FALSE
 Next == ~done /\ done' = TRUE /\ UNCHANGED case
 Spec == Init /\ [][Next]_<<case, done>>
@@ -136,15 +144,16 @@ Emit(c, xs) ==
 GenInv == done \/ \A xs \in {Applied(case.x, case.h)} : Emit(case, xs)
 
 (* ---------------- laws of the composition, checked on every case ---------------- *)
-Laws ==
-  done \/ LET xs == AsList(case.x)
-              plain == U!UnparseList(xs, {})
-          IN \* a handler that answers None (or the node itself) everywhere leaves the tree alone: Unparse
-             /\ Applied(case.x, "none") = xs /\ Applied(case.x, "self") = xs
-             /\ Handled(case.x, "none") = plain
-             \* the reading is a reading of exactly the emitted text
-             /\ (Readable(xs) /\ FullArityL(xs)) => Flat(Lower(xs)) = plain
-             \* expansion is the identity on a text without calls (links are transparent)
-             /\ (case.h = "none" /\ Readable(xs) /\ \A i \in 1..Len(CallsL(xs)) : CallsL(xs)[i].kind = "LINK")
-                  => ToHtml(case.x, "none", Libs[case.lib], Known) = plain
+LawNone ==    \* a handler that answers None (or the node itself) everywhere leaves the tree alone: Unparse
+  done \/ LET xs == AsList(case.x) IN
+          /\ Applied(case.x, "none") = xs /\ Applied(case.x, "self") = xs
+          /\ Handled(case.x, "none") = U!UnparseList(xs, {})
+LawReading == \* the reading is a reading of exactly the emitted text
+  done \/ LET xs == AsList(case.x) IN
+          (Readable(xs) /\ FullArityL(xs)) => Flat(Lower(xs)) = U!UnparseList(xs, {})
+LawIdentity == \* expansion is the identity on a text without calls (links are transparent)
+  done \/ LET xs == AsList(case.x) IN
+          (case.h = "none" /\ Readable(xs) /\ U!KindsInKids(xs) \cap {"TEMPLATE", "PARSER_FN", "TEMPLATE_ARG"} = {})
+             => ToHtml(case.x, "none", Libs[case.lib], Known) = U!UnparseList(xs, {})
+Laws == LawNone /\ LawReading /\ LawIdentity
 =============================================================================
